@@ -120,6 +120,13 @@ class Controller:
             self.loop.call_soon(self.step)
             return
         entry = self.next_entry()
+        if entry is None and getattr(waiter, "_pyvc_default", None) is not None:
+            # beyond the scripted part (e.g. inside a summarised loop): the stub answers with its default
+            # (a well-formed success response); replays judge only what the failed obligation is about
+            self.log.append(f"{getattr(waiter, '_pyvc_kind', '?')} -> default answer")
+            waiter.set_result(waiter._pyvc_default())
+            self.loop.call_soon(self.step)
+            return
         if entry is None:
             # script exhausted while the real code still waits: let virtual time run (timeouts fire)
             self.log.append("script exhausted; waiting on timers")
@@ -208,3 +215,7 @@ def run_coroutine(coro, builder, script, self_obj=None):
     finally:
         builder.replay_log = ctl.log
         asyncio.set_event_loop(None)
+        try:
+            loop.close()
+        except Exception:
+            pass
